@@ -416,6 +416,9 @@ func (e *vSrvEnd) pendingTotal0() int {
 }
 
 func TestVerifC02(t *testing.T) {
+	stall := make(chan struct{})
+	go func() { defer close(stall); vC02WriteStall() }()
+	defer func() { <-stall }()
 	ok, out := vRunChild(t, "TestVerifC02Child", fmt.Sprint(vSeed()), 900*time.Second)
 	if !ok {
 		vEmit(vCase{Class: "child", Fail: "rendezvous-scenario-crashed", Sig: "crash", Info: map[string]interface{}{"panic": vPanicLine(out)}})
@@ -460,4 +463,86 @@ func TestVerifC02Child(t *testing.T) {
 			ms = append(ms[:i], ms[i+1:]...)
 		}
 	}
+}
+
+// End to end over real sockets: the server side never reads, so the client's socket fills up and
+// its write pump stalls in the socket write; every client -> server call (1 MiB, 300 ms deadline)
+// must still return by its deadline, whether its request was written, is being written or waits
+// for the pump.
+func vC02WriteStall() {
+	r := vNewRand(vSeed() + 202)
+	skey, ckey := vGenKey(r), vGenKey(r)
+	rs := vStartRawServer(skey, ckey.Pub)
+	ctx, cancel := context.WithTimeout(context.Background(), 120*time.Second)
+	defer cancel()
+	info := map[string]interface{}{"payload": 1 << 20, "deadline_ms": 300, "outcome": "ok"}
+	c := vCase{Class: "write-stall/client-e2e", Sig: "write-stall/client-e2e", Info: info}
+	cc, err := vDialLib(ctx, rs.Addr, ckey, skey.Pub, WithBlock(), WithWriteTimeout(8*time.Second))
+	if err != nil {
+		c.Fail = "client-dial-failed"
+		vEmit(c)
+		rs.Close()
+		return
+	}
+	select {
+	case <-rs.Conns: // accepted, never read
+	case <-time.After(3 * time.Second):
+	}
+	const callers, rounds = 12, 3
+	deadline := 300 * time.Millisecond
+	var mu sync.Mutex
+	var worst time.Duration
+	late, calls := 0, 0
+	kinds := map[string]int{}
+	var wg sync.WaitGroup
+	for k := 0; k < callers; k++ {
+		wg.Add(1)
+		go func(k int) {
+			defer wg.Done()
+			payload := make([]byte, 1<<20)
+			for i := 0; i < rounds; i++ {
+				cctx, ccancel := context.WithTimeout(context.Background(), deadline)
+				done := make(chan error, 1)
+				start := time.Now()
+				go func() { done <- cc.Invoke(cctx, "Echo", vAppMsg(fmt.Sprintf("w%d_%d", k, i), payload, ""), &message.Response{}) }()
+				kind := "not-returned"
+				select {
+				case err := <-done:
+					kind = "returned-in-time"
+					if err != nil && strings.Contains(err.Error(), "could not write") {
+						kind = "write-ended-with-context"
+					} else if err != nil && strings.Contains(err.Error(), "call timeout") {
+						kind = "written-then-timeout"
+					}
+				case <-time.After(deadline + 2500*time.Millisecond):
+				}
+				over := time.Since(start) - deadline
+				ccancel()
+				mu.Lock()
+				calls++
+				kinds[kind]++
+				if over > worst {
+					worst = over
+				}
+				if kind == "not-returned" {
+					late++
+				}
+				mu.Unlock()
+				if kind == "not-returned" {
+					return
+				}
+			}
+		}(k)
+	}
+	wg.Wait()
+	info["calls"] = calls
+	info["results"] = fmt.Sprint(kinds)
+	info["worst_overrun_ms"] = worst.Milliseconds()
+	if late > 0 {
+		c.Fail = "write-ignores-context-while-pump-stalled/e2e"
+		info["outcome"] = fmt.Sprintf("%d of %d calls had not returned 2.5 s after their 300 ms deadline while the peer does not read", late, calls)
+	}
+	vEmit(c)
+	rs.Close() // releases the stalled socket write
+	vClose(cc, 10*time.Second)
 }
